@@ -21,9 +21,8 @@ def main():
     mod = importlib.import_module("gen." + a.pid.lower())
     try:
         if a.replay:
-            rc = mod.replay(a.replay)
-        else:
-            rc = mod.main(a.tier, seed)
+            os.environ["VERIF_REPLAY"] = os.path.abspath(a.replay)
+        rc = mod.main(a.tier, seed)
     except lib.BuildError as e:
         path = lib.write_replay(a.pid, "build-" + e.stage,
                                 {"property": a.pid, "kind": "build-failed", "stage": e.stage, "log": e.log[-4000:]})
